@@ -1053,30 +1053,40 @@ def is_blob_record(record):
 
 def copyTransactionsFromTo(source, destination):
     for trans in source.iterator():
-        destination.tpc_begin(trans, trans.tid, trans.status)
-        for record in trans:
-            blobfilename = None
-            if is_blob_record(record.data):
-                try:
-                    blobfilename = source.loadBlob(record.oid, record.tid)
-                except POSKeyError:
-                    pass
-            if blobfilename is not None:
-                fd, name = tempfile.mkstemp(
-                    prefix='CTFT',
-                    suffix='.tmp', dir=destination.fshelper.temp_dir)
-                os.close(fd)
-                with open(blobfilename, 'rb') as sf:
-                    with open(name, 'wb') as df:
-                        utils.cp(sf, df)
-                destination.restoreBlob(record.oid, record.tid, record.data,
-                                        name, record.data_txn, trans)
-            else:
-                destination.restore(record.oid, record.tid, record.data,
-                                    '', record.data_txn, trans)
+        try:
+            _copy_transaction(source, destination, trans)
+        except:  # noqa: E722 do not use bare 'except'
+            # Only we know this transaction: nobody else can abort it, and
+            # the destination would keep its commit lock for ever.
+            destination.tpc_abort(trans)
+            raise
 
-        destination.tpc_vote(trans)
-        destination.tpc_finish(trans)
+
+def _copy_transaction(source, destination, trans):
+    destination.tpc_begin(trans, trans.tid, trans.status)
+    for record in trans:
+        blobfilename = None
+        if is_blob_record(record.data):
+            try:
+                blobfilename = source.loadBlob(record.oid, record.tid)
+            except POSKeyError:
+                pass
+        if blobfilename is not None:
+            fd, name = tempfile.mkstemp(
+                prefix='CTFT',
+                suffix='.tmp', dir=destination.fshelper.temp_dir)
+            os.close(fd)
+            with open(blobfilename, 'rb') as sf:
+                with open(name, 'wb') as df:
+                    utils.cp(sf, df)
+            destination.restoreBlob(record.oid, record.tid, record.data,
+                                    name, record.data_txn, trans)
+        else:
+            destination.restore(record.oid, record.tid, record.data,
+                                '', record.data_txn, trans)
+
+    destination.tpc_vote(trans)
+    destination.tpc_finish(trans)
 
 
 NO_WRITE = ~ (stat.S_IWUSR | stat.S_IWGRP | stat.S_IWOTH)
